@@ -27,13 +27,15 @@ ANCHOR_FILES = ["sktime/transformations/series/*.py", "sktime/transformations/se
                 "sktime/forecasting/ets.py"]
 REQUIRED_REACH = ["outlier_detection.py:_hampel_filter", "impute.py:Imputer.transform", "boxcox.py:BoxCoxTransformer.transform", "_meta.py:_HeterogenousEnsembleForecaster._fit_forecasters",
                   "_tsf.py:_fit_estimator", "_tsf.py:TimeSeriesForestClassifier.predict_proba", "_boss.py:BOSSEnsemble.predict_proba"]
-REQUIRED_MONITORS = ["fit.caller-data-unchanged", "apply.caller-data-unchanged", "apply.repeatable", "apply.interleaved", "pickle", "n_jobs", "schedule.distinct-completion-orders"]
+REQUIRED_MONITORS = ["fit.caller-data-unchanged", "apply.caller-data-unchanged", "apply.repeatable", "apply.interleaved", "pickle", "n_jobs", "schedule.distinct-completion-orders", "equal-params"]
 NOT_COVERED = ["thread interleavings beyond task completion order (tasks share no mutable state in the anchored code)", "process-based joblib backends",
                "estimators constructed with random_state=None (the statement quantifies over equal random_state)"]
 ASSUMPTIONS = ["the class of an equal-valued index object is not part of the caller's data (statsmodels adapters swap an integer Index for an equal RangeIndex)"]
 JOBS = {"quick": 8, "thorough": 16}
 CASE_TIMEOUT = {"quick": 240.0, "thorough": 400.0}
-PARALLEL = ["tsf", "tsfreg", "rise", "stsf", "ensemble-forecaster", "stack-forecaster", "autoets", "grid"]
+PARALLEL = ["tsf", "tsfreg", "rise", "stsf", "ensemble-forecaster", "stack-forecaster", "autoets", "grid", "boss", "cboss", "iboss", "sfa", "param-extractor", "rand",
+            "online-forecaster", "multiplex-forecaster"]
+# not runnable here: ComposableTimeSeriesForest* (abstract under the installed scikit-learn), FeatureUnion (private scikit-learn helper with another signature)
 FORECASTERS = zoo.LEAVES + zoo.SLOW_LEAVES + [
     ["ensemble", {"aggfunc": "mean"}, [["naive", {"strategy": "last"}], ["poly", {"degree": 1}]]],
     ["pipeline", {}, [["deseason", {"sp": 3, "model": "additive"}], ["detrend", {"degree": 1}]], ["naive", {"strategy": "mean", "window_length": 3}]],
@@ -60,7 +62,8 @@ def cases(tier, seed):
             yield {"kind": "panel", "est": name, "container": ["S", "A", "np"][int(rng.integers(0, 3))], "dseed": int(rng.integers(0, 2 ** 31)), "eseed": int(rng.integers(0, 50))}
     for r in range(3 if tier == "quick" else 40):
         for name in PARALLEL:
-            yield {"kind": "njobs", "est": name, "dseed": int(rng.integers(0, 2 ** 31)), "eseed": int(rng.integers(0, 50)), "delay_seed": int(rng.integers(0, 10 ** 6))}
+            yield {"kind": "njobs", "est": name, "dseed": int(rng.integers(0, 2 ** 31)), "eseed": int(rng.integers(0, 50)), "delay_seed": int(rng.integers(0, 10 ** 6)),
+                   "classes": int(rng.integers(2, 4)), "data": ["synthetic", "bundled"][int(rng.integers(0, 2))]}
 
 
 def _eq(a, b, tol=0.0):
@@ -166,6 +169,33 @@ def _forecaster(case, ctx):
         ok, d = ctx.call("predict:exception:" + spec[0], f2.predict, fh, Xf)
         if ok:
             ctx.check("pickle", _eq(a, d, 1e-12), "pickle:%s:restored-copy-differs" % spec[0], "a pickled and restored forecaster gives another forecast")
+    # equal parameters + equal data => equal results: a second fresh instance, and an instance that had another life before
+    # (fitted on another series, with another horizon, predicted from) and is then fitted on the same data
+    g = zoo.build(spec)
+    ok, _ = ctx.call("fit:exception:" + spec[0], g.fit, y.copy(), None if X is None else X.copy(), fh)
+    if ok:
+        ok, e = ctx.call("predict:exception:" + spec[0], g.predict, fh, Xf)
+        if ok:
+            ctx.check("equal-params", _eq(a, e, 1e-12), "equal-params:%s:second-fresh-instance-differs" % spec[0], "two fresh forecasters with equal parameters fitted on equal data forecast differently")
+    h = zoo.build(spec)
+    m0 = zoo.min_length(spec) + int(rng.integers(4, 30))
+    y0 = zoo.make_series(rng, m0, positive=True, off=int(rng.choice([3, 50])), index=case["idx"], kind="walk") * 1.7 + 5.0
+    X0 = pd.DataFrame({"x": rng.normal(0, 1, m0)}, index=y0.index) if case["withX"] else None
+    try:
+        h.fit(y0, X0, fh=[1, 2])
+        h.predict([1, 2], None if X0 is None else pd.DataFrame({"x": [0.0, 0.0]}, index=pd.RangeIndex(y0.index[-1] + 1, y0.index[-1] + 3)))
+        used = True
+    except Exception:  # noqa
+        used = False
+    if used:
+        ok, _ = ctx.call("fit:exception:%s:refit-of-used-instance" % spec[0], h.fit, y.copy(), None if X is None else X.copy(), fh)
+        if ok:
+            ok, e = ctx.call("predict:exception:%s:refit-of-used-instance" % spec[0], h.predict, fh, Xf)
+            if ok:
+                ctx.check("equal-params", _eq(a, e, 1e-12), "equal-params:%s:refitted-used-instance-differs-from-fresh" % spec[0],
+                          "a forecaster that was fitted on other data before, fitted again on the same data, forecasts differently from a fresh one",
+                          fresh=np.asarray(a).tolist(), reused=np.asarray(e).tolist())
+                ctx.check("equal-params", h.cutoff == f.cutoff, "equal-params:%s:refitted-used-instance-differs-from-fresh" % spec[0], "cutoff of the refitted instance differs", got=h.cutoff)
     ctx.tag("f:" + spec[0])
     ctx.event(kind="forecaster", spec=name)
     ctx.nontrivial = True
@@ -210,6 +240,38 @@ def _panel(case, ctx):
                 ok, d = ctx.call("%s:exception:%s" % (m, name), getattr(est2, m), Xte)
                 if ok:
                     ctx.check("pickle", _eq(first[m], d, 1e-12), "pickle:%s:restored-copy-differs" % name, "a pickled and restored estimator gives another result")
+    # equal parameters + equal data => equal results: second fresh instance; instance with an earlier life on another panel
+    def fit_apply(e, where):
+        ok, _ = ctx.call("fit:exception:%s:%s" % (name, where), (lambda: e.fit(Xtr, y)) if sup else (lambda: e.fit(Xtr)))
+        outs = {}
+        if ok:
+            for m in methods:
+                ok, o = ctx.call("%s:exception:%s:%s" % (m, name, where), getattr(e, m), Xte)
+                if ok:
+                    outs[m] = o
+        return outs
+    if first:
+        o2 = fit_apply(pzoo.build(name, case["eseed"]), "second-fresh-instance")
+        for m in o2:
+            if m in first:
+                ctx.check("equal-params", _eq(first[m], o2[m], 1e-12), "equal-params:%s:second-fresh-instance-differs" % name,
+                          "two fresh estimators with equal parameters (and random_state) fitted on equal data give different results", method=m)
+        u = pzoo.build(name, case["eseed"])
+        nt0 = int(rng.integers(max(pzoo.MIN_LEN.get(name, 12), 12) + 2, 40))
+        X0, y0i, A0 = pzoo.make_panel(rng, 13, 2 if multi else 1, nt0, cells=cells, positive=pos, plateaus=name == "plateau", classes=3)
+        y0 = (y0i + rng.normal(0, 0.1, len(y0i))) if name in pzoo.REGRESSORS else np.array(["b", "c", "a"])[y0i]
+        try:
+            u.fit(A0 if case["container"] == "np" else X0, y0) if sup else u.fit(A0 if case["container"] == "np" else X0)
+            getattr(u, methods[0])(A0 if case["container"] == "np" else X0)
+            used = True
+        except Exception:  # noqa
+            used = False
+        if used:
+            o3 = fit_apply(u, "refit-of-used-instance")
+            for m in o3:
+                if m in first:
+                    ctx.check("equal-params", _eq(first[m], o3[m], 1e-12), "equal-params:%s:refitted-used-instance-differs-from-fresh" % name,
+                              "an estimator that was fitted on another panel before, fitted again on the same data, gives other results than a fresh one", method=m)
     ctx.tag("p:" + name)
     ctx.event(kind="panel", est=name, container=case["container"])
     ctx.nontrivial = bool(first)
@@ -221,8 +283,8 @@ def _panel(case, ctx):
 class Delays:
     """wraps module-level task functions with seeded sleeps and records task start / completion order per run"""
 
-    def __init__(self, targets, seed):
-        self.targets, self.seed = targets, seed
+    def __init__(self, targets, seed, every=1):
+        self.targets, self.seed, self.every = targets, seed, every      # every: sleep on one call in `every` (task functions called thousands of times)
         self.orig = []
         self.lock = threading.Lock()
         self.done = []
@@ -241,9 +303,12 @@ class Delays:
                 i = self.counter
                 self.counter += 1
             r = np.random.default_rng([self.seed, i])
-            time.sleep(float(r.uniform(0, 0.004)))
+            slow = self.every == 1 or int(r.integers(0, self.every)) == 0
+            if slow:
+                time.sleep(float(r.uniform(0, 0.004)))
             out = fn(*a, **k)
-            time.sleep(float(r.uniform(0, 0.002)))
+            if slow:
+                time.sleep(float(r.uniform(0, 0.002)))
             with self.lock:
                 self.done.append(i)
             return out
@@ -266,7 +331,71 @@ def _njobs(case, ctx):
     import sktime.series_as_features.base.estimators.interval_based._tsf as B
     orders = set()
     outs = {}
-    if name in ("tsf", "tsfreg", "rise", "stsf"):
+    if name in ("boss", "cboss", "iboss", "sfa", "ctsf", "ctsfreg", "param-extractor", "feature-union"):
+        # small training sets on purpose: the BOSS ensembles keep / drop members on exact accuracy ties
+        ntr = int(rng.integers(10, 31))
+        nt = int(rng.integers(20, 33))
+        Xtr, ytr, _ = pzoo.make_panel(rng, ntr, 1, nt, classes=case.get("classes", 2))
+        Xte, _, _ = pzoo.make_panel(rng, 12, 1, nt, classes=case.get("classes", 2))
+        if case.get("data") == "bundled" and name in ("boss", "cboss", "iboss", "sfa"):
+            # a bundled problem (random sub-sample): real series produce the exact accuracy ties between word lengths that synthetic noise rarely does
+            from sktime.datasets import load_italy_power_demand
+            Xa, ya = load_italy_power_demand(return_X_y=True)
+            pick = rng.permutation(len(Xa))
+            Xtr, Xte = Xa.iloc[pick[:ntr]].reset_index(drop=True), Xa.iloc[pick[ntr:ntr + 25]].reset_index(drop=True)
+            ytr = (np.asarray(ya)[pick[:ntr]] == np.asarray(ya)[0]).astype(int)
+        yl = np.array(["a", "b", "c", "d"])[ytr]
+        structure = {}
+        import sktime.classification.dictionary_based._boss as BO
+        import sktime.transformations.panel.dictionary_based._sfa as SF
+        targets = [(BO.IndividualBOSS, "_train_predict"), (BO.IndividualBOSS, "_test_nn"), (SF.SFA, "_transform_case")]
+
+        def mk(nj):
+            if name in ("boss", "cboss", "iboss", "sfa"):
+                e = pzoo.build(name, case["eseed"])
+                e.set_params(n_jobs=nj if nj is not None else 1)
+                return e, yl
+            if name == "ctsf":
+                from sktime.classification.compose import ComposableTimeSeriesForestClassifier
+                return ComposableTimeSeriesForestClassifier(n_estimators=5, random_state=case["eseed"], n_jobs=nj), yl
+            if name == "ctsfreg":
+                from sktime.regression.compose import ComposableTimeSeriesForestRegressor
+                return ComposableTimeSeriesForestRegressor(n_estimators=5, random_state=case["eseed"], n_jobs=nj), ytr + rng0.normal(0, 0.1, len(ytr))
+            if name == "param-extractor":
+                from sktime.forecasting.exp_smoothing import ExponentialSmoothing
+                from sktime.transformations.panel.summarize import FittedParamExtractor
+                return FittedParamExtractor(ExponentialSmoothing(), ["initial_level"], n_jobs=nj), None
+            from sktime.series_as_features.compose import FeatureUnion
+            from sktime.transformations.panel.dictionary_based import PAA
+            from sktime.transformations.panel.summarize import DerivativeSlopeTransformer
+            return FeatureUnion([("a", PAA(num_intervals=3)), ("b", DerivativeSlopeTransformer()), ("c", PAA(num_intervals=5))], n_jobs=nj), None
+        for nj in (None, 1, 2, 4):
+            rng0 = np.random.default_rng([case["dseed"], 77])
+            est, yy = mk(nj)
+            with Delays(targets, case["delay_seed"] + (nj or 0), every=40) as d, parallel_backend("threading"):
+                ok, _ = ctx.call("njobs:fit-exception:" + name, est.fit, Xtr, yy) if yy is not None else ctx.call("njobs:fit-exception:" + name, est.fit, Xtr)
+                if not ok:
+                    return
+                fn = est.predict if name == "ctsfreg" else (est.predict_proba if hasattr(est, "predict_proba") else est.transform)
+                ok, o = ctx.call("njobs:apply-exception:" + name, fn, Xte)
+                if not ok:
+                    return
+            if name in ("boss", "cboss"):
+                # the fitted ensemble itself: members (window, word length, normalisation, training accuracy) and their weights
+                structure[nj] = [(int(c.window_size), int(c.word_length), bool(c.norm), round(float(getattr(c, "accuracy", 0.0)), 12)) for c in est.classifiers] + \
+                    [round(float(w), 12) for w in getattr(est, "weights", [])]
+            if name == "sfa":
+                o = [[sorted((int(k), int(v)) for k, v in bag.items()) for bag in o[0]]] if not hasattr(o, "iloc") else pzoo.canon(o)
+                outs[nj] = o
+            else:
+                c = pzoo.canon(o) if hasattr(o, "iloc") else None
+                outs[nj] = np.asarray([np.concatenate([np.ravel(np.asarray(x, dtype=float)) for x in row]) for row in c], dtype=float) if c is not None and len(c) and isinstance(c[0], tuple) \
+                    else np.asarray(o, dtype=float)
+            orders.add(tuple(d.done))
+        for nj, st in structure.items():
+            ctx.check("n_jobs", st == structure[None], "n_jobs:%s:fitted-ensemble-depends-on-n_jobs" % name,
+                      "equal estimators fitted on equal data keep different members for different n_jobs", n_jobs=nj, got=st[:6], expected=structure[None][:6])
+    elif name in ("tsf", "tsfreg", "rise", "stsf"):
         Xtr, ytr, _ = pzoo.make_panel(rng, 14, 1, 26)
         Xte, _, _ = pzoo.make_panel(rng, 7, 1, 26)
         y = (ytr + rng.normal(0, 0.1, len(ytr))) if name == "tsfreg" else np.array(["a", "b"])[ytr]
@@ -307,6 +436,18 @@ def _njobs(case, ctx):
                 from sktime.forecasting.ets import AutoETS
                 est = AutoETS(auto=True, sp=1, n_jobs=nj)
                 targets = []
+            elif name == "online-forecaster":
+                from sktime.forecasting.online_learning import OnlineEnsembleForecaster
+                est = OnlineEnsembleForecaster([("a", NaiveForecaster()), ("b", PolynomialTrendForecaster(degree=1)), ("c", NaiveForecaster(strategy="drift"))], n_jobs=nj)
+            elif name == "multiplex-forecaster":
+                from sktime.forecasting.compose import MultiplexForecaster
+                est = MultiplexForecaster([("a", NaiveForecaster()), ("b", PolynomialTrendForecaster(degree=1))], selected_forecaster="b")
+                if "n_jobs" in est.get_params():
+                    est.set_params(n_jobs=nj)
+            elif name == "rand":
+                from sktime.forecasting.model_selection import ForecastingRandomizedSearchCV, SlidingWindowSplitter
+                est = ForecastingRandomizedSearchCV(NaiveForecaster(), cv=SlidingWindowSplitter(fh=[1], window_length=12, step_length=6), n_iter=4, random_state=case["eseed"],
+                                                    param_distributions={"strategy": ["last", "mean", "drift"], "window_length": [3, 5]}, n_jobs=nj)
             else:
                 from sktime.forecasting.model_selection import ForecastingGridSearchCV, SlidingWindowSplitter
                 est = ForecastingGridSearchCV(NaiveForecaster(), cv=SlidingWindowSplitter(fh=[1], window_length=12, step_length=6),
@@ -322,6 +463,10 @@ def _njobs(case, ctx):
             orders.add(tuple(d.done))
     base = outs[None]
     for nj, o in outs.items():
+        if isinstance(base, list):
+            ctx.check("n_jobs", o == base, "n_jobs:%s:result-depends-on-n_jobs-or-schedule" % name,
+                      "equal estimators fitted on equal data give different results for different n_jobs (under injected task delays)", n_jobs=nj)
+            continue
         ctx.check("n_jobs", o.shape == base.shape and np.allclose(o, base, rtol=1e-12, atol=1e-12), "n_jobs:%s:result-depends-on-n_jobs-or-schedule" % name,
                   "equal estimators fitted on equal data give different results for different n_jobs (under injected task delays)", n_jobs=nj,
                   got=o.ravel()[:6].tolist(), expected=base.ravel()[:6].tolist())
